@@ -183,7 +183,8 @@ def run(ctx):
     stats = {n: st for n, st, v, tp in res}
     vals = {n: v for n, st, v, tp in res}
     nrej = sum(v["nbad"] for v in vals.values())
-    if not ok1 or not ok2:
+    if (not ok1 and not (gb1 and nrej)) or (not ok2 and not (gb2 and nrej)):
+        # (a self-test on a recorded prefix that is itself rejected - the tree under test breaks the property there - is moot)
         raise vlib.Infra("binding self-test failed: %s %s" % (why1, why2))
     if (gb1 or gb2) and not nrej:
         raise vlib.Infra("binding self-test: uncorrupted prefix rejected but the full run is clean")
